@@ -15,7 +15,7 @@ package remember
 //@   ensures no_panic: !panics
 //@
 //@ func Authenticate
-//@   property C07 C01 C18 C17
+//@   property C07 C01 C06 C18 C17
 //@   ensures[C17] no_secret_leak: secrets_clean
 //@   let rq = deref(req)
 //@   let raw = b64url_dec(cookie(rq, "rm"))
@@ -25,7 +25,7 @@ package remember
 //@   ensures[C07] parsed_pid_is_issued_pid: each Store.UseRememberToken(?p, ?h) =>
 //@       h == b64std(sha512(raw)) &&
 //@       ((len(raw) >= 33 && substr(raw, len(raw) - 33, 1) == ";") ==> p == substr(raw, 0, len(raw) - 33))
-//@   ensures[C07,C01,C18] use_before_session: each Sess.Put("uid", ?v) =>
+//@   ensures[C07,C01,C06,C18] use_before_session: each Sess.Put("uid", ?v) =>
 //@       cookie_has(rq, "rm") &&
 //@       before Store.AddRememberToken(?p2, ?h2) -> ?ae :: ae == nil && p2 == v &&
 //@       before Store.UseRememberToken(?p, ?h) -> ?ue :: ue == nil && p == v && h == b64std(sha512(raw))
@@ -66,7 +66,7 @@ package remember
 //@   ensures mw_next_runs: !panics ==> emits Next.ServeHTTP(_, _, _)
 //@
 //@ func (*Remember).AfterPasswordReset
-//@   property C06 C17
+//@   property C06 C07 C17
 //@   ensures[C17] no_secret_leak: secrets_clean
 //@   -- after a password recovery every remember token of that account is revoked and the
 //@   -- browser's cookie removed
